@@ -1,7 +1,8 @@
 (* C05 oracle. One request per line, one reply line.
      reset | init ; <disk> ; <rf>      -> ok   (state every later request starts from)
-     crash  W k ; op;op;...            -> <disk> # consistent ready covers ops_env ops_fresh cont
-     fault  W k ; op;...  [; ? S ...]  -> <disk> # mem_covers stores(mem) stores(reinit) ops_env
+     crash  W k ; op;op;...            -> <disk> # consistent ready covers ops_env ops_fresh cont snap_discipline
+     fault  W k ; op;...  [; ? S ...]  -> <disk> # mem_covers stores(mem) stores(reinit) ops_env snap_discipline # <rf>
+                                          (k beyond the last commit = the fault-free run)
      counts W ; op;...                 -> n1 n2 ...
      eval   W ; <disk>                 -> consistent ready covers windows_ok cont
    ops:  S num id parent keys | R | P keep_hist e | L h | N | G | U      (numbers in hex, keys k1_k2 or -)
@@ -116,7 +117,8 @@ let () =
             let d = crash_disk w ops k st0 in
             print_endline (show_disk d ^ " # " ^ String.concat " "
               [b2s (consistent w d); b2s (recover_ready w d); b2s (index_covers w d); b2s (ops_env w ops st0);
-               b2s (ops_fresh w ops st0); b2s (cont d)])
+               b2s (ops_fresh w ops st0); b2s (cont d);
+               b2s (snap_discipline ops (snap_pending (fst st0)))])
         | ["fault"; w; k] ->
             let w = nh w and k = nat_of_int (int_of_string k) in
             let isq x = String.length x > 0 && x.[0] = '?' in
@@ -130,6 +132,7 @@ let () =
                   | _ -> "- -")
               | [] -> "- -" in
             print_endline (show_disk d ^ " # " ^ b2s (mem_covers w d m) ^ " " ^ st ^ " " ^ b2s (ops_env w ops st0)
+                           ^ " " ^ b2s (snap_discipline ops (snap_pending (fst st0)))
                            ^ " # " ^ show_rf m)
         | ["counts"; w] ->
             let ops = List.map parse_op rest in
